@@ -41,7 +41,7 @@ theorem Out.sig_mono {W : World} {lc : Nat × Nat} {d pos e1 e2 : Nat} {L T : Li
   | err k => exact h
   | brk => obtain ⟨hd, L', hst, he, hl⟩ := h; exact ⟨hd, L', hst, hs _ _ he, hl⟩
   | cont => obtain ⟨hd, L', hst, he, hl⟩ := h; exact ⟨hd, L', hst, hs _ _ he, hl⟩
-  | ret v => trivial
+  | ret v => exact h
 
 /-- a signal raised by a later stage, after `hst`; `hT`: a `break`/`continue` there is only possible when
     no operand of this fragment is pending -/
@@ -65,7 +65,7 @@ theorem Out.sig_after {W : World} {lc : Nat × Nat} {d d' pos0 pos e1 e2 : Nat} 
     obtain ⟨hd, L', h1, he, hl⟩ := h
     obtain ⟨rfl, hd0⟩ := hT hd
     exact ⟨hd0, L', hst.trans h1, hs _ _ he, by omega⟩
-  | ret v => trivial
+  | ret v => exact h
 
 theorem pushed_unit (v : Sem.Val) : pushed v .unit = [] := rfl
 
